@@ -14,6 +14,7 @@
 static CC_TSTTable *tt;
 static CC_TSTTableIter it;
 static int it_valid;
+static int sparse, full_now;   /* obs=sparse session: content only on `observe` */
 
 /* ---- interned keys: entry->key points into this table, which lives until `reset` ---- */
 #define MAXKEYS 4096
@@ -79,6 +80,7 @@ static int ull_cmp(const void *a, const void *b) {
 static int cb_kind; /* 0 none, 1 keys, 2 values */
 
 static void obs_abs(void) {
+    if (sparse && !full_now) return;
     if (!tt) { o("abs=[] enum=[] size=0"); return; }
     o("abs=["); int first = 1;
     for (size_t i = 0; i < nkeys; i++) {
@@ -131,7 +133,7 @@ static void phys(void) {
     n_eow = 0; walk_msg = NULL;
     o_node(tt->root, NULL);
     if (n_eow != tt->size) walk_msg = "eow-count-differs-from-size";
-    collect_iter(); o(" "); o_pairs("ord");
+    if (!sparse || full_now) { collect_iter(); o(" "); o_pairs("ord"); }   /* library iterator */
     if (cb_kind == 1) {
         o(" cbord=["); for (size_t i = 0; i < nkcb; i++) { if (i) o(","); o_key(kcb[i]); } o("]");
     } else if (cb_kind == 2) {
@@ -146,7 +148,7 @@ static void phys(void) {
 }
 
 static void do_op(Cmd *c) {
-    cb_kind = 0; nkcb = 0;
+    cb_kind = 0; nkcb = 0; full_now = 0;
     const char *kh = kv_str(c, "k", NULL);
     char *key = kh ? intern(kh) : NULL;
     if (is_op(c, "new")) {
@@ -155,12 +157,13 @@ static void do_op(Cmd *c) {
         if (!strcmp(cm, "u")) conf.char_cmp = cmp_unsigned;
         if (!strcmp(cm, "r")) conf.char_cmp = cmp_reverse;
         conf.mem_alloc = conf_malloc; conf.mem_calloc = conf_calloc; conf.mem_free = conf_free;
-        tt = NULL; it_valid = 0;
+        tt = NULL; it_valid = 0; sparse = !strcmp(kv_str(c, "obs", "full"), "sparse");
         enum cc_stat st = cc_tsttable_new_conf(&conf, &tt);
         if (st != CC_OK) tt = NULL;
         o_stat(st); o(" ");
     } else if (is_op(c, "new_default")) {
         tt = NULL; it_valid = 0;   /* C-library allocator: reported in the libc columns */
+        sparse = !strcmp(kv_str(c, "obs", "full"), "sparse");
         enum cc_stat st = cc_tsttable_new(&tt); if (st != CC_OK) tt = NULL; o_stat(st); o(" ");
     } else if (!tt) { o("st=- nosession"); o_sep(); o("-"); return;
     } else if (is_op(c, "add") && key) {
@@ -182,6 +185,8 @@ static void do_op(Cmd *c) {
         o_stat(st); o(" ");
     } else if (is_op(c, "remove_all")) {
         it_valid = 0; cc_tsttable_remove_all(tt); o("st=- ");
+    } else if (is_op(c, "observe")) {
+        full_now = 1; o("st=- ");
     } else if (is_op(c, "size")) {
         o("st=- out=%zu ", cc_tsttable_size(tt));
     } else if (is_op(c, "foreach_key")) {
